@@ -286,10 +286,12 @@ Definition row_closs (al : Q) (r : row) : Q := if is_contra al (rcur r) then lo 
 Definition f_contradiction_loss (k : fkb) (registered : list nat) (s : fstate) : Q :=
   qsum (map (fun i => qsum (map (row_closs (falpha (getf k i))) (ftab s i))) registered).
 (* formula.py:_uncertainty_loss summed over the model's nodes (with a coefficient of 1): a node one of whose rows is a
-   contradiction contributes nothing (is_contradiction() is node-wide), any other node the total width U - L of its rows *)
+   contradiction contributes nothing (is_contradiction() is node-wide), any other node the total width U - L of its rows,
+   a row crossed inside the tolerance (alpha < 1) counting as zero width (clamp(min=0)) *)
+Definition row_width (r : row) : Q := qmax 0 (hi (rcur r) - lo (rcur r)).
 Definition f_uncertainty_loss (k : fkb) (registered : list nat) (s : fstate) : Q :=
   qsum (map (fun i => if existsb (fun r => is_contra (falpha (getf k i)) (rcur r)) (ftab s i) then 0
-                      else qsum (map (fun r => hi (rcur r) - lo (rcur r)) (ftab s i))) registered).
+                      else qsum (map row_width (ftab s i))) registered).
 (* formula.py:_supervised_loss of a first-order formula: torch MSELoss (the MEAN over rows x 2 entries) between the rows of
    the labelled groundings that are present in the table and their labels; None when no labelled grounding is present *)
 Definition fsq (x : Q) : Q := x * x.
